@@ -21,7 +21,7 @@ from . import common
 PROPERTY = 'C05'
 LEAN_TARGETS = ['CpProofs.C05', 'drv_c05']
 DRIVER = 'drv_c05'
-THEOREMS_PLANNED = [
+THEOREMS = [
     'CpProofs.C05.C05_refines_cursor',
     'CpProofs.C05.C05_step_refines',
     'CpProofs.C05.C05_never_overreads',
@@ -35,7 +35,6 @@ THEOREMS_PLANNED = [
     'CpProofs.C05.C05_readline_n_quirk',
     'CpProofs.C05.C05_regression_F5',
 ]
-THEOREMS = ['CpProofs.C05.stub']
 LEVEL = 'proof'
 TECHNIQUE = ('Lean 4 proof: refinement of SizedReader (buffer, bytes_read, push-back, socket fragmentation) to a '
              'cursor over body[:Content-Length] by invariant + induction over the operation history; model tied '
